@@ -374,11 +374,11 @@ func (tr *Tr) pointerTypeFacts(fr *Frame, elem types.Type, p Val) {
 		if containsByValue(n, elem, 0) {
 			continue
 		}
-		key := p[0].id*131 + int(typeTag(n)%1000003)*7 + 11
-		if tr.invCache[key] {
+		key := fmt.Sprintf("p%d|%d", p[0].id, typeTag(n))
+		if tr.typeFactCache[key] {
 			continue
 		}
-		tr.invCache[key] = true
+		tr.typeFactCache[key] = true
 		tr.assume(f.Or(f.Eq(p[0], f.BVi(64, 0)), f.Neq(tr.rtype(p[0]), f.BVu(64, typeTag(n)))),
 			"a *"+types.TypeString(elem, nil)+" does not point into an object allocated as "+n.Obj().Name())
 	}
@@ -392,11 +392,11 @@ func (tr *Tr) sliceTypeFacts(elem types.Type, reg *Term) {
 		if containsByValue(n, elem, 0) {
 			continue
 		}
-		key := reg.id*137 + int(typeTag(n)%1000003)*7 + 13
-		if tr.invCache[key] {
+		key := fmt.Sprintf("s%d|%d", reg.id, typeTag(n))
+		if tr.typeFactCache[key] {
 			continue
 		}
-		tr.invCache[key] = true
+		tr.typeFactCache[key] = true
 		tr.assume(f.Or(f.Eq(reg, f.BVi(64, 0)), f.Neq(tr.rtype(reg), f.BVu(64, typeTag(n)))),
 			"the backing array of a []"+types.TypeString(elem, nil)+" is not inside an object allocated as "+n.Obj().Name())
 	}
